@@ -40,6 +40,14 @@ def apply_monitors(ctx, which, obs, runs, f, orig, case):
         driver.mon_c11(ctx, obs, runs, sum(1 for r in f[2] if r), case)
     if "c12" in which and len(runs) == 1:
         driver.mon_c12(ctx, obs, orig, case)
+    if "c12" in which and len(runs) > 1:
+        # several runs on one object share the temp directory: after each reducing run 'original' is what that run started from
+        start = orig
+        for i, (o, r) in enumerate(zip(obs, runs)):
+            if r["kind"] == "m" and o.tmp and o.tmp[0][0] == "original" and o.tmp[0][1] != start:
+                ctx.fail("original-copy", f"run {i}: 'original' holds {o.tmp[0][1]!r}, the run started from {start!r}", case)
+                break
+            start = o.disk
 
 
 def classify(ctx, obs, runs):
